@@ -36,8 +36,8 @@ import (
 )
 
 const blockRange = 100
-const tOff = int64(1) << 62 // wire offset of timestamps
-const tClamp = int64(1) << 61
+const tOff = int64(1) << 20 // wire offset of timestamps (short literals: Coq parses numbers digit by digit)
+const tClamp = int64(1) << 19
 
 type smp struct{ sid, t, v int64 }
 
@@ -731,6 +731,20 @@ func (c *caseRun) pickRange() (int64, int64) {
 			cand = append(cand, c.table[r.Intn(len(c.table))].t)
 		}
 	}
+	if flag, T := c.db.DB.Head().VerifTruncation(); flag && r.Chance(1, 2) {
+		// a truncation is in process: put one end of the range on the truncation time (+-1),
+		// the cases IsQuerierCollidingWithTruncation distinguishes
+		c.dist["range:at-truncation-time"]++
+		e := T + r.Range(-1, 1)
+		if r.Chance(2, 3) {
+			lo := gen.Pick(r, cand)
+			if lo > e || r.Chance(1, 3) {
+				lo = c.minT - 5
+			}
+			return min(lo, e), e
+		}
+		return e, max(e, c.maxT+5)
+	}
 	if r.Chance(1, 4) {
 		return c.minT - 5, c.maxT + 5
 	}
@@ -1057,19 +1071,33 @@ func u(v int64) string {
 	return fmt.Sprint(v)
 }
 func ut(t int64) string { return u(clampT(t) + tOff) }
+// il prints a monomorphic integer list (C_ a (C_ b N_)).
+func il(items []string) string {
+	if len(items) == 0 {
+		return "N_"
+	}
+	var sb strings.Builder
+	sb.WriteString("(")
+	for _, it := range items {
+		sb.WriteString("C_ " + it + " (")
+	}
+	sb.WriteString("N_")
+	sb.WriteString(strings.Repeat(")", len(items)+1))
+	return sb.String()
+}
 func ulist(vs []int64) string {
 	it := make([]string, len(vs))
 	for i, v := range vs {
 		it[i] = u(v)
 	}
-	return gallina.List(it)
+	return il(it)
 }
 func tlist(vs []int64) string {
 	it := make([]string, len(vs))
 	for i, v := range vs {
 		it[i] = ut(v)
 	}
-	return gallina.List(it)
+	return il(it)
 }
 // ilist prints table indices run-length encoded: start, length, start, length, ...
 func (c *caseRun) ilist(vs []int) string {
@@ -1082,7 +1110,7 @@ func (c *caseRun) ilist(vs []int) string {
 		it = append(it, fmt.Sprint(c.perm[vs[i]]), fmt.Sprint(j-i))
 		i = j
 	}
-	return gallina.List(it)
+	return il(it)
 }
 
 func (c *caseRun) term() string {
@@ -1147,7 +1175,7 @@ func main() {
 		defer pprof.StopCPUProfile()
 	}
 	verifhook.SetHandler(hookHandler)
-	n := f.Count(40, 700)
+	n := f.Count(36, 600)
 	root, err := os.MkdirTemp(f.Out, "c06")
 	if err != nil {
 		panic(err)
@@ -1173,7 +1201,7 @@ func main() {
 	wg.Wait()
 	verifhook.SetHandler(nil)
 
-	cf := &gallina.CaseFile{Dir: f.Out, Type: "case", PerShard: 20,
+	cf := &gallina.CaseFile{Dir: f.Out, Type: "case", PerShard: 36,
 		Preamble: "From Coq Require Import List ZArith Uint63.\nFrom Verif Require Import model.CompactRace corr.CorrC06.\nImport ListNotations.\nOpen Scope uint63_scope.\n",
 		Footer:   gallina.StdFooter}
 	for i, r := range results {
